@@ -110,6 +110,10 @@ pub struct Node {
     /// Verification hook: bit 0 = override active, bit 1 = enabled, bit 2 = connected.
     #[cfg(scylla_verif)]
     verif_state: std::sync::atomic::AtomicU8,
+
+    /// Verification hook: the sharder a pool-less node pretends to have.
+    #[cfg(scylla_verif)]
+    verif_sharder: std::sync::OnceLock<Sharder>,
 }
 
 /// A way that Nodes are often passed and accessed in the driver's code.
@@ -150,6 +154,8 @@ impl Node {
             enabled_as_connected: AtomicBool::new(false),
             #[cfg(scylla_verif)]
             verif_state: std::sync::atomic::AtomicU8::new(0),
+            #[cfg(scylla_verif)]
+            verif_sharder: std::sync::OnceLock::new(),
         }
     }
 
@@ -169,6 +175,8 @@ impl Node {
             enabled_as_connected: AtomicBool::new(false),
             #[cfg(scylla_verif)]
             verif_state: std::sync::atomic::AtomicU8::new(0),
+            #[cfg(scylla_verif)]
+            verif_sharder: std::sync::OnceLock::new(),
         }
     }
 
@@ -197,6 +205,8 @@ impl Node {
             verif_state: std::sync::atomic::AtomicU8::new(
                 node.verif_state.load(std::sync::atomic::Ordering::SeqCst),
             ),
+            #[cfg(scylla_verif)]
+            verif_sharder: node.verif_sharder.clone(),
         }
     }
 
@@ -208,6 +218,10 @@ impl Node {
     /// If the node [is enabled](Self::is_enabled) and does not have a sharder,
     /// this means it's not a ScyllaDB node.
     pub fn sharder(&self) -> Option<Sharder> {
+        #[cfg(scylla_verif)]
+        if let Some(sharder) = self.verif_sharder.get() {
+            return Some(sharder.clone());
+        }
         self.pool.as_ref()?.sharder()
     }
 
@@ -260,6 +274,12 @@ impl Node {
         let st = 1 | if enabled { 2 } else { 0 } | if connected { 4 } else { 0 };
         self.verif_state
             .store(st, std::sync::atomic::Ordering::SeqCst);
+    }
+
+    /// Verification hook: give this (pool-less) node a sharder.
+    #[cfg(scylla_verif)]
+    pub fn verif_set_sharder(&self, sharder: Sharder) {
+        let _ = self.verif_sharder.set(sharder);
     }
 
     /// Signals the node's connection pool to retry connecting immediately,
@@ -503,6 +523,8 @@ mod tests {
                 enabled_as_connected: AtomicBool::new(false),
                 #[cfg(scylla_verif)]
                 verif_state: std::sync::atomic::AtomicU8::new(0),
+                #[cfg(scylla_verif)]
+                verif_sharder: std::sync::OnceLock::new(),
             }
         }
 
